@@ -25,7 +25,8 @@ EXPLANATION = (
     'is written and read back in the same base around the same separator, so a reply can find its client; '
     '(GRD.3) a blank ident and the user info complete each other in either order; (GRD.4) the reply lookup '
     'passes over a slot only because it is not awaited, empty or named differently.  The numeric invariant '
-    'over histories is not decided.')
+    'over histories is not decided.'
+    ' Rounds 8-9: (TAB.3/WMC.3/FMT.1/TAB.4) shared: tag capacity, fresh zeroed request, one flush per message, per-message arity; (MPT.3) the reader\'s event is persistent and level-triggered.')
 ASSUMPTIONS = ['event entries are discovered from the dispatch switch, extern-callback registrations and the reply slots',
                'a call of the gate re-evaluates the request it is given; requests are not aliased across clients']
 
